@@ -297,6 +297,11 @@ def gen_cases(ctx, salt=17, ncase=None):
         if mode == 3:
             kw["absdelta"] = float(rng.choice([0.1, 5.0]))
             kw["xtol"] = 0.1
+        # the exact-rational model run is only affordable for short runs on few unknowns
+        if n == 3 or (n == 2 and k > 0):
+            kw["maxiter"] = min(kw["maxiter"], 1)
+        elif n == 2:
+            kw["maxiter"] = min(kw["maxiter"], 2)
         if i % 11 == 10:
             kw["maxiter"] = 0
         cases.append({"obj": {"type": "poly", "a": a, "b": b, "c": c, "k": k}, "x0": x0, "kw": kw, "trust": (i % 7 == 0)})
